@@ -233,8 +233,13 @@ func runC12(r *Run) {
 					}
 					return false
 				}
-				for _, ret := range returnsOf(fn) {
-					for _, ec := range allEntryConds(ret.Block()) {
+				repRet := map[*ssa.Return]bool{}
+				rq := &PathQuery{P: p, Fn: fn}
+				rq.AtReturn = func(ret *ssa.Return, _ uint64, pc *PathCtx) {
+					if repRet[ret] {
+						return
+					}
+					for _, ec := range pc.PathConds() {
 						if !dep(ec.Cond, 0) {
 							continue
 						}
@@ -250,10 +255,12 @@ func runC12(r *Run) {
 						if b, isB := cond.(*ssa.BinOp); isB && (b.Op == token.EQL || b.Op == token.NEQ) && (b.X == errV && isNilConst(b.Y) || b.Y == errV && isNilConst(b.X)) && (b.Op == token.EQL) == val {
 							continue
 						}
-						rd.Violation(fn, instrPos(ret), "reader stops on a read error", "the reader's goroutine returns depending on the error of ReadFrom: one datagram that fails to read or decode (a runt, garbage) ends the delivery of every later response")
+						repRet[ret] = true
+						rd.ViolationPath(fn, instrPos(ret), "reader stops on a read error", "the reader's goroutine returns depending on the error of ReadFrom: one datagram that fails to read or decode (a runt, garbage) ends the delivery of every later response", pc.Witness(fn, ret))
 						break
 					}
 				}
+				rq.Run()
 			}
 		}
 	}
